@@ -39,9 +39,14 @@ LEVEL_NOTE = ("bounded: images - sizes 1..3 x 1..3, 5x2, 1x7, 7x1 (thorough: + 1
               "thread lifetimes, nesting depth <= 3, names / categories / counter values chosen by thread and position, "
               "law checking on 2 threads x 3 events (thorough 3 x 3 in creation order and 2 x 4), long logs of 0, 1, 8191, 8192, 8193, 16384, 16385, 24576 events per "
               "thread on 1..8 concurrently recording threads.  sessions: 2 recorders x 2 threads x <= 3 (thorough 4) events for the graph, "
-              "4 private recorders + the global one x 3 threads in random executions.  Not covered (not in the statement): one pointer carrying "
-              "two texts inside one recorder (documented limitation of the pointer-keyed cache), names needing JSON escaping, counter "
-              "values >= 2^31, time stamps, cpu statistics, thread names, detached threads, endEvent "
+              "4 private recorders + the global one x 3 threads in random executions.  boundary classes: counter values as exact numerals over the whole uint64 range "
+              "(neighbourhoods of 2^31, 2^32, 2^53, 2^63, 2^64), names that need JSON escaping (quote, backslash, control characters) or are 15 "
+              ".. 65537 characters long, such process names, nesting deeper than 255, 3000 distinct names in one thread, 8 threads "
+              "registering at the same instant, saves exactly at a chunk boundary followed by more events, every log of a process written to "
+              "one file; images with one side around 2^16, every byte value at first / last positions, floats that are not small dyadics "
+              "(-0, subnormal, FLT_MAX, inf, NaN payload), 16 images in a row in one process.  Not covered (not in the statement): one "
+              "pointer carrying two texts inside one recorder (documented limitation of the pointer-keyed cache), thread names needing "
+              "escaping, time stamps, cpu statistics, thread names, detached threads, endEvent "
               "without a begin, unwritable paths.  Trusted: TLC, the drivers' independent PNM/PFM reader and strict JSON reader, the "
               "injective code <-> byte / float mapping, ASan/UBSan as the observation of out-of-bounds reads, g++/libstdc++")
 TECHNIQUE = ("TLA+ ADT specification of the trace recorder + contract laws model-checked by TLC; state-graph histories replayed on the real "
@@ -160,6 +165,8 @@ def report_mismatches(chk, histories, res, rc, stderr, tag, sig_prefix, meta, ex
         if mm["kind"] == "missing":
             raise tla.InfraError("driver %s stopped without result for case %d (rc=%s): %s" % (exe, mm["case"], rc, stderr[-1500:]))
         h = histories[mm["case"]]
+        if mm.get("cls") in ESC_CLASSES and str(mm.get("field", "")).startswith("/threads"):
+            mm["field"] = "/text"         # one family: a text that needs escaping does not come back as it was recorded
         what = "%s: step %d %s(%s): %s expected %s observed %s" % (
             sig_prefix, mm["step"], mm.get("action"), json.dumps(mm.get("arg"))[:200], mm["field"],
             json.dumps(mm.get("expected"))[:300], json.dumps(mm.get("observed"))[:300])
@@ -246,7 +253,7 @@ def settled(st):
     return all(ph == "new" or rc for ph, rc in zip(st["phase"], st["rec"]))
 
 
-def histories_from_graph(ag, seed, walks, walk_len, select):
+def histories_from_graph(ag, seed, walks, walk_len, select, all_upto=2, rotate=1):
     """One history per selected abstract state (BFS path to it, then SaveLog): both process-name variants for states with at
     most two recorded events, alternating otherwise; plus seeded random walks (SaveLog in the middle, recording continues)."""
     parent = {}
@@ -278,9 +285,9 @@ def histories_from_graph(ag, seed, walks, walk_len, select):
         nsel += 1
         base = path_to(s)
         saves = [step for step, d in ag.edges.get(s, []) if step["a"] == "SaveLog"]
-        if len(saves) != 2:
-            raise tla.InfraError("state without its two SaveLog transitions")
-        pick = saves if sum(1 for st in base if st["a"] in RECORDING) <= 2 else [saves[n % 2]]
+        if len(saves) < 2:
+            raise tla.InfraError("state without its SaveLog transitions")
+        pick = saves if sum(1 for st in base if st["a"] in RECORDING) <= all_upto else [saves[(n + j) % len(saves)] for j in range(rotate)]
         for sv in pick:
             hs.append(base + [sv])
     rw = [w for w in adt.random_walks(ag, walks, walk_len, seed) if any(st["a"] == "SaveLog" for st in w)]
@@ -300,7 +307,8 @@ def lines_of_short(h, obs):
         for st in h:
             if st["a"] in RECORDING and st["arg"]["t"] == t:
                 a = st["arg"]
-                lines.append({"e": "Rec", "t": t, "k": kind[st["a"]], "name": a.get("name", ""), "cat": a.get("cat", ""), "val": a.get("val", 0)})
+                lines.append({"e": "Rec", "t": t, "k": kind[st["a"]], "name": a.get("name", ""), "cat": a.get("cat", ""),
+                              "val": str(a["val"]) if st["a"] == "Counter" else ""})
     lines.append({"e": "Save", "pname": h[-1]["arg"]["pname"]})
     lines += log_lines(obs[-1])
     return lines
@@ -315,29 +323,34 @@ def log_lines(o):
 
 
 def lines_of_long(acts, r):
-    """a recorded execution (RunThreads / RunSequential, then SaveLog) -> trace lines"""
+    """a recorded execution (RunThreads / RunSequential ..., SaveLog, possibly more of both) -> one list of trace lines per
+    SaveLog: each holds everything every thread recorded up to that save, and the log that save wrote"""
     if "crash" in r or "timeout" in r:
         kind = "crash" if "crash" in r else "timeout"
         k = r[kind].get("step", 0)
-        return [{"e": "Start", "threads": 0}, {"e": kind, "during": acts[k]["a"] if 0 <= k < len(acts) else None, "obs": r[kind]}]
+        return [[{"e": "Start", "threads": 0}, {"e": kind, "during": acts[k]["a"] if 0 <= k < len(acts) else None, "obs": r[kind]}]]
     obs = r["obs"]
-    lines = []
+    out = []
     recs = []
     for st, o in zip(acts, obs):
         if "unexpected_exception" in o:
-            lines.append({"e": "crash", "during": st["a"], "obs": o})
+            out.append([{"e": "Start", "threads": 0}, {"e": "crash", "during": st["a"], "obs": o}])
             break
         if st["a"] in ("RunThreads", "RunSequential"):
-            recs = o["rec"]
+            for t, evs in enumerate(o["rec"]):
+                if t < len(recs):
+                    recs[t] = recs[t] + evs
+                else:
+                    recs.append(list(evs))
         elif st["a"] == "SaveLog":
-            lines.append({"e": "Start", "threads": len(recs)})
-            lines += life_lines(o)
+            lines = [{"e": "Start", "threads": len(recs)}] + life_lines(o)
             for t, evs in enumerate(recs, 1):
                 for e in evs:
                     lines.append({"e": "Rec", "t": t, "k": e[0], "name": e[1], "cat": e[2], "val": e[3]})
             lines.append({"e": "Save", "pname": st["arg"]["pname"]})
             lines += log_lines(o)
-    return lines
+            out.append(lines)
+    return out
 
 
 def sequential_in(lines):
@@ -347,9 +360,18 @@ def sequential_in(lines):
     return any(a["died"] > 0 and a["died"] < b["born"] for a in life for b in life)
 
 
+ESC_NAMES = {"@quote", "@quote-first", "@quote-last", "@backslash", "@winpath", "@trailing-backslash", "@newline", "@tab", "@ctrl1", "@del", "@utf8", "@slash"}
+ESC_CLASSES = ("names=escaping", "pname=escaping")
+
+
 def cls_of_lines(lines):
+    """the class the specification gives the SaveLog of this execution (TraceLog!SaveLog, labelling only)"""
     empty = not any(ln["e"] == "Rec" for ln in lines)
     pn = next((ln["pname"] for ln in lines if ln["e"] == "Save"), "")
+    if pn in ESC_NAMES:
+        return "pname=escaping"
+    if any(ln["e"] == "Rec" and (ln["name"] in ESC_NAMES or ln["cat"] in ESC_NAMES) for ln in lines):
+        return "names=escaping"
     return ("log=empty" if empty else "log=nonempty") + (",pname=none" if pn == "" else ",pname=given") + (",threads=sequential" if sequential_in(lines) else "")
 
 
@@ -373,7 +395,12 @@ def validate_executions(chk, execs, tag, sources, timeout=2400):
         e = ev.get("e")
         field = {"malformed": "json", "crash": "crash", "timeout": "timeout", "Log": "entry-rejected", "End": "events-missing"}.get(e, "trace-rejected")
         action = ev.get("during") or "SaveLog"
-        sig = "tracing/%s(%s)/%s" % (action, cls_of_lines(lines), field)
+        if cls_of_lines(lines) in ESC_CLASSES and field in ("entry-rejected", "events-missing"):
+            field = "text"
+        cls = cls_of_lines(lines)
+        if e in ("crash", "timeout") and isinstance(sources[rj["exec"]], dict) and sources[rj["exec"]].get("name"):
+            cls = "run=" + sources[rj["exec"]]["name"].rstrip("0123456789-")      # the process died: what it had recorded is not known
+        sig = "tracing/%s(%s)/%s" % (action, cls, field)
         what = "tracing: recorded execution rejected by TraceLogTrace at line %d of %d: %s" % (rj["line"], len(lines), json.dumps(ev)[:400])
         ctx = lines[max(0, rj["line"] - 3):rj["line"] + 1]
         rep = {"kind": "trace", "property": chk.pid, "tag": tag, "source": sources[rj["exec"]], "rejected_at": rj["line"], "context": ctx,
@@ -403,7 +430,7 @@ def corrupted_trace_control(chk, lines, tag):
     if cs:
         i = rnd.choice(cs)
         v = [dict(x) for x in lines]
-        v[i]["val"] = v[i]["val"] + 1 if v[i]["val"] < 2147483647 else 0
+        v[i]["val"] = str(int(v[i]["val"]) + 1)
         variants.append(("counter value altered", v))
     i = rnd.choice([k for k in rel if k + 1 in rel and lines[k]["tid"] == lines[k + 1]["tid"] and
                     [lines[k][f] for f in ("ph", "name", "cat", "val")] != [lines[k + 1][f] for f in ("ph", "name", "cat", "val")]])
@@ -446,9 +473,25 @@ def long_configs(quick, rnd):
     else:
         for i in range(4):
             cfgs.append(("random-%d" % i, [prog(rnd.choice([0, 1, 2, 3, 17, 100, 1000])) for _ in range(rnd.randint(1, 8))], rnd.choice(["", "p"])))
+    # boundaries of hidden counters and buffers: nesting deeper than 255, thousands of distinct names in one thread's string cache,
+    # names of 15 / 16 / 17 ... 4097 characters, an empty (but not null) process name, and all threads registering at the same moment
+    cfgs += [
+        ("deep-nesting", [prog(700, maxdepth=300, climb=True), prog(300, maxdepth=129, climb=True)], ""),
+        ("many-names", [prog(7000, pool=3000)], ""),
+        ("long-names", [prog(400, longnames=True), prog(300, longnames=True)], "proc"),
+        ("empty-pname", [prog(5)], "@empty"),
+    ]
+    for i in range(32 if quick else 200):
+        cfgs.append(("registration-race-%d" % i, [prog(rnd.choice([1, 1, 2, 3])) for _ in range(8)], rnd.choice(["", "p"])))
     out = []
     for name, progs, pname in cfgs:
         out.append((name, [{"a": "RunThreads", "arg": {"progs": progs}}, {"a": "SaveLog", "arg": {"pname": pname, "raw": True}}]))
+    # a save exactly at a storage-chunk boundary, then more events, then another save (the second log holds everything)
+    for name, phases in [("full-chunk-save-one-more", [CHUNK, 1]), ("chunk-1-save-one-save-one", [CHUNK - 1, 1, 1]), ("save-grow-save", [3, CHUNK, 2])]:
+        a = []
+        for n in phases:
+            a += [{"a": "RunThreads", "arg": {"progs": [prog(n), prog(1)]}}, {"a": "SaveLog", "arg": {"pname": "", "raw": True}}]
+        out.append((name, a))
     # threads that follow one another (created right after the previous one was joined: the OS recycles the std::thread::id),
     # beside a thread that lives through all of them
     seq = [
@@ -473,20 +516,23 @@ def record_long(chk, exe, cfgs, tag, meta, nproc):
     acts = [c[1] for c in cfgs]
     chk.count_actions(acts)
     res, rc, stderr, wall = run_parallel(exe, acts, tag, nproc, meta, timeout_ms=900000)
-    execs, sources = [], []
+    execs, sources, first = [], [], {}
     nev = 0
     for i, a in enumerate(acts):
         r = res.get(i)
         if r is None:
             raise tla.InfraError("driver %s gave no result for recorded execution %d (rc=%s): %s" % (exe, i, rc, stderr[-1500:]))
-        lines = lines_of_long(a, r)
-        nev += sum(1 for ln in lines if ln["e"] == "Rec")
-        execs.append(lines)
-        sources.append({"name": cfgs[i][0], "actions": a})
-        note_lifetimes(chk, sequential_in(lines), len({ln["t"] for ln in lines if ln["e"] == "Rec"}), (r.get("obs") or [{}])[-1])
-    chk.log("recorded %d long executions on the real recorder (%d recorded events) in %.1fs" % (len(acts), nev, wall))
+        parts = lines_of_long(a, r)
+        first[cfgs[i][0]] = len(execs)
+        for lines in parts:
+            execs.append(lines)
+            sources.append({"name": cfgs[i][0], "actions": a})
+        if parts:
+            nev += sum(1 for ln in parts[-1] if ln["e"] == "Rec")
+            note_lifetimes(chk, sequential_in(parts[-1]), len({ln["t"] for ln in parts[-1] if ln["e"] == "Rec"}), (r.get("obs") or [{}])[-1])
+    chk.log("recorded %d long executions on the real recorder (%d recorded events, %d saved logs) in %.1fs" % (len(acts), nev, len(execs), wall))
     chk.cov["evaluations"] += len(acts)
-    return execs, sources, nev
+    return execs, sources, nev, first
 
 
 def note_lifetimes(chk, sequential, n_recording, o):
@@ -507,6 +553,8 @@ def note_lifetimes(chk, sequential, n_recording, o):
 # recorder sessions (TraceSessions): several TraceRecorder instances, the same threads recording into all of them
 # ---------------------------------------------------------------------------
 SESSION_REC = {"RMarker", "RCounter", "RBegin", "REnd"}
+COUNTER_EDGES = [0, 1, 999999, 1000001, 2 ** 31 - 1, 2 ** 31, 2 ** 31 + 1, 2 ** 32 - 1, 2 ** 32, 2 ** 32 + 1, 2 ** 53 - 1, 2 ** 53 + 1, 2 ** 63 - 1, 2 ** 63,
+                 2 ** 63 + 1, 2 ** 64 - 2, 2 ** 64 - 1]
 
 
 def session_histories(ag, seed, quick):
@@ -577,7 +625,7 @@ def rand_session_actions(rnd, n):
             depth[(r, t)] = d + 1
             return {"a": "RBegin", "arg": {"r": r, "t": t, "src": src, "csrc": rnd.choice(["", "L1", "L2", "BUF"]), "val": 0}}
         if x < 0.45:
-            return {"a": "RCounter", "arg": {"r": r, "t": t, "src": src, "csrc": "", "val": rnd.randint(0, 10 ** 6)}}
+            return {"a": "RCounter", "arg": {"r": r, "t": t, "src": src, "csrc": "", "val": str(rnd.choice(COUNTER_EDGES + [rnd.getrandbits(rnd.randint(1, 64))]))}}
         return {"a": "RMarker", "arg": {"r": r, "t": t, "src": src, "csrc": rnd.choice(["", "", "L2"]), "val": 0}}
 
     for _ in range(n):
@@ -597,6 +645,10 @@ def rand_session_actions(rnd, n):
             acts.append(rec_action())
     for r in opened + [0]:
         acts.append({"a": "RSave", "arg": {"r": r, "pname": "", "raw": True}})
+    if rnd.random() < 0.5:          # every log of this process is written to one and the same file, longer and shorter ones in turn
+        for st in acts:
+            if st["a"] == "RSave":
+                st["arg"]["samepath"] = True
     return acts
 
 
@@ -617,7 +669,8 @@ def session_lines(acts, r):
         elif a == "RDestroy":
             lines.append({"e": "Destroy", "r": arg["r"]})
         elif a in SESSION_REC:
-            lines.append({"e": "Rec", "r": arg["r"], "t": arg["t"], "k": kind[a], "name": o.get("name", ""), "cat": o.get("cat", ""), "val": arg.get("val", 0)})
+            lines.append({"e": "Rec", "r": arg["r"], "t": arg["t"], "k": kind[a], "name": o.get("name", ""), "cat": o.get("cat", ""),
+                          "val": str(arg["val"]) if a == "RCounter" else ""})
         elif a == "RSave":
             if o.get("json") != "wellformed":
                 lines.append({"e": "malformed", "r": arg["r"], "why": o.get("why"), "head": o.get("head"), "tail": o.get("tail")})
@@ -732,7 +785,7 @@ BIG_WHAT = ("PixLaws, index laws on a large size by counting, then one case per 
             "boundary + per-row sums of every sample")
 
 
-def gen_big_cases(quick, out):
+def gen_big_cases(quick, out, parts=("wide", "tall", "mid", "sweep")):
     """the three independent parts of ImageWritersBigGen, each its own TLC run, beside one another (the threads only run TLC
     and read what it wrote; the bookkeeping is done by the caller)"""
     import glob
@@ -740,12 +793,13 @@ def gen_big_cases(quick, out):
     def work(part):
         try:
             cfg = "ImageWritersBigGen_%s%s.cfg" % (part, "" if quick or part == "mid" else "_thorough")
+            to = 6000
             d = os.path.join(tla.WORK, "cases", "c20-images-" + part)
             os.makedirs(d, exist_ok=True)
             prefix = os.path.join(d, "cases-%d" % os.getpid())
             for f in glob.glob(prefix + "*"):
                 os.remove(f)
-            r = tla.run_tlc(os.path.join(SPEC_IMG, "ImageWritersBigGen.tla"), os.path.join(SPEC_IMG, cfg), workers=1, timeout=3000,
+            r = tla.run_tlc(os.path.join(SPEC_IMG, "ImageWritersBigGen.tla"), os.path.join(SPEC_IMG, cfg), workers=1, timeout=to,
                             env={"OUT": prefix}, tag="c20-images-" + part)
             if not r.ok:
                 raise tla.InfraError("case-generation module ImageWritersBigGen/%s failed: violated=%s error=%s\n%s" % (cfg, r.violated, r.error, r.out[-2500:]))
@@ -759,7 +813,7 @@ def gen_big_cases(quick, out):
             out[part] = (cfg, r, sort_keys(cases))
         except Exception as ex:
             out[part] = ex
-    ths = [threading.Thread(target=work, args=(p,)) for p in ("wide", "tall", "mid")]
+    ths = [threading.Thread(target=work, args=(p,)) for p in parts]
     for t in ths:
         t.start()
     return ths
@@ -767,8 +821,6 @@ def gen_big_cases(quick, out):
 
 def run_images(chk, quick, tmp):
     exe = build.build("drv_files", san=SAN)
-    big = {}
-    ths = gen_big_cases(quick, big)
     cases = sort_keys(funcheck.gen_cases(chk, SPEC_IMG, "ImageWritersGen", "ImageWritersGen.cfg" if quick else "ImageWritersGen_thorough.cfg",
                                          "c20-images", workers=1,
                                          what="index-map laws of the six writers on every size (in-bounds, bijective, row involution, header), "
@@ -790,11 +842,42 @@ def run_images(chk, quick, tmp):
     smp = next(c for c in cases if c["a"] == "writePFM_vec3fa" and c["arg"]["w"] == 1 and c["arg"]["h"] == 2 and c["arg"]["buf"] == "exact")
     chk.add_sample({"kind": "image-case", "case": smp}, maxn=8)
 
-    # large images: wide, tall, mid-size (pattern content, sampled positions + per-row aggregates)
+    return cases
+
+
+def run_large_images(chk, quick, tmp, pending, cases):
+    """large images: wide, tall, mid-size, byte sweeps (pattern content, sampled positions + per-row aggregates); TLC computed the
+    cases beside everything else"""
+    ths, big = pending
     for t in ths:
         t.join()
+    exe = build.build("drv_files", san=SAN)
+    meta = {"tmpdir": tmp}
+    bcases = collect_big(chk, big, ("wide", "tall", "mid", "sweep"))
+    run_big_images(chk, exe, bcases, "c20-images-big", meta)
+    specials = [c for c in cases if "values=special" in c.get("cls", "")]
+    if len({v for c in specials for v in c["arg"]["pix"]}) < 16:
+        raise tla.InfraError("vacuity guard: not every special float value occurs in a case")
+    sweep = {c["arg"]["pat"] - 100 for c in bcases if c["arg"]["pat"] >= 100}
+    for v in (0, 10, 13, 26, 127, 128, 255):
+        if v not in sweep:
+            raise tla.InfraError("vacuity guard: byte value %d is not swept through the first / last positions" % v)
+    chk.cov["image_value_classes"] = {"special_float_cases": len(specials), "byte_values_swept": len(sweep)}
+    # HISTORY: the same writers called again and again in ONE process, wide and narrow images in turn (anything a writer keeps between
+    # two calls - a static or thread-local row buffer, a cached size - is now in play); expectations are the cases' own
+    rnd = random.Random(chk.seed)
+    pool = [c for c in bcases if c["arg"]["w"] * c["arg"]["h"] <= 20000] + [c for c in cases if c["arg"]["buf"] == "exact"]
+    rnd.shuffle(pool)
+    batches = [pool[i:i + 16] for i in range(0, len(pool), 16)]
+    res, rc, stderr, wall = run_parallel(exe, batches, "c20-images-seq", 6, meta)
+    n = report_mismatches(chk, batches, res, rc, stderr, "c20-images-seq", "SaveImage", meta, exe)
+    chk.log("SaveImage: %d sequences of 16 images each written one after the other in one process (%d mismatching) in %.1fs" % (len(batches), n, wall))
+    chk.cov["image_sequences"] = {"sequences": len(batches), "images": len(pool)}
+
+
+def collect_big(chk, big, parts):
     bcases = []
-    for part in ("wide", "tall", "mid"):
+    for part in parts:
         if isinstance(big.get(part), Exception):
             raise big[part]
         cfg, r, cs = big[part]
@@ -803,10 +886,23 @@ def run_images(chk, quick, tmp):
         chk.cov["transitions"] += 1
         chk.log("TLC ImageWritersBigGen/%s: laws checked, %d cases emitted in %.1fs" % (cfg, len(cs), r.wall))
         bcases += cs
-    run_big_images(chk, exe, bcases, "c20-images-big", meta)
+    return bcases
 
 
-def run_big_images(chk, exe, bcases, tag, meta):
+def run_huge_images(chk, quick, tmp, pending):
+    """one dimension around 2^16, images of about 2^16 pixels: TLC computed these cases beside everything else"""
+    ths, big = pending
+    for t in ths:
+        t.join()
+    exe = build.build("drv_files", san=SAN)
+    hcases = collect_big(chk, big, ("huge",))
+    run_big_images(chk, exe, hcases, "c20-images-huge", {"tmpdir": tmp}, guard=False)
+    for w in WRITERS:
+        if not any(c["a"] == w and c["arg"]["w"] > 65536 for c in hcases) or not any(c["a"] == w and c["arg"]["h"] > 65536 for c in hcases):
+            raise tla.InfraError("vacuity guard: no image wider / taller than 65536 for %s" % w)
+
+
+def run_big_images(chk, exe, bcases, tag, meta, guard=True):
     hs = [[c] for c in bcases]
     chk.count_actions(hs)
     res, rc, stderr, wall = run_parallel(exe, hs, tag, 6, meta)
@@ -826,13 +922,13 @@ def run_big_images(chk, exe, bcases, tag, meta):
                     compared[c["a"]][k] += 1
     n = report_mismatches(chk, hs, res, rc, stderr, tag, "SaveImage", meta, exe)
     chk.log("SaveImage: %d large images (wide / tall / mid-size) written by the real writers and decoded (%d mismatching) in %.1fs" % (len(hs), n, wall))
-    if not chk.is_replay:
+    if not chk.is_replay and guard:
         for w in WRITERS:
             for k in ("w>1024", "w>2048", "h>1024", "h>2048"):
                 if compared[w][k] == 0 and n == 0:
                     raise tla.InfraError("vacuity guard: no decoded case with %s for %s" % (k, w))
     chk.cov["distinct_nontrivial"] += len({json.dumps([c["a"], c["arg"]["w"], c["arg"]["h"]]) for c in bcases})
-    chk.cov["large_image_cases"] = {"cases": len(bcases), "compared_by_writer": compared,
+    chk.cov["large_image_cases" if guard else "huge_image_cases"] = {"cases": len(bcases), "compared_by_writer": compared,
                                     "samples_in_row_aggregates": sum(c["arg"]["w"] * c["arg"]["h"] * len(c["exp"]["samples"][0][0]) for c in bcases),
                                     "sampled_positions": sum(len(c["arg"]["rows"]) * len(c["arg"]["cols"]) for c in bcases)}
     smp = next((c for c in bcases if c["a"] == "writePGM" and c["arg"]["w"] == 1025 and c["arg"]["h"] == 1), None)
@@ -870,12 +966,15 @@ def run_tracelog(chk, quick, tmp, rnd):
         ("TraceLogGen.cfg" if quick else "TraceLogGen_thorough.cfg", settled, "all threads live until saveLog"),
         ("TraceLogGenLife.cfg" if quick else "TraceLogGenLife_thorough.cfg", lambda st: settled(st) and "done" in st["phase"],
          "threads end, later threads are created after them or beside them"),
+        ("TraceLogGenNames.cfg", settled, "first event with a name that needs care in JSON or has a length around a buffer size; such process names"),
     ]:
         ag, r = graph_from_edges(chk, gcfg, "c20-gen")
         chk.add_model("TraceLogGen/" + gcfg, r,
                       "generation instance (%s): %d abstract states (per-thread event sequences, thread phases, ended-before-created "
                       "relation), %d abstract transitions; action properties GSaveAgrees, GLifeAgrees, GRecordAgrees" % (what, len(ag.states), ag.nedges))
-        h1, w1, nsel = histories_from_graph(ag, chk.seed, 300 if quick else 3000, 14, select)
+        names = gcfg == "TraceLogGenNames.cfg"
+        h1, w1, nsel = histories_from_graph(ag, chk.seed, 0 if names else (300 if quick else 3000), 14, select,
+                                            all_upto=-1 if names else 2, rotate=2 if names else 1)
         geninfo[gcfg] = {"abstract_states": len(ag.states), "abstract_transitions": ag.nedges, "states_with_history": nsel,
                          "state_histories": len(h1), "random_walks_with_save": len(w1), "walk_len": 14}
         hs += h1
@@ -887,7 +986,8 @@ def run_tracelog(chk, quick, tmp, rnd):
     chk.require_actions(["ThreadStart", "ThreadExit", "Begin", "End", "Marker", "Counter", "SaveLog"])
     classes = {st["cls"] for h in allh for st in h if st["a"] == "SaveLog"}
     need = {"log=empty,pname=none", "log=empty,pname=given", "log=nonempty,pname=none", "log=nonempty,pname=given",
-            "log=nonempty,pname=none,threads=sequential", "log=nonempty,pname=given,threads=sequential"}
+            "log=nonempty,pname=none,threads=sequential", "log=nonempty,pname=given,threads=sequential",
+            "names=escaping", "pname=escaping", "log=nonempty,pname=none,names=long", "log=nonempty,pname=given,names=long"}
     if not need <= classes:
         raise tla.InfraError("vacuity guard: SaveLog classes never exercised: %s" % sorted(need - classes))
     chk.cov["generation_TraceLog"] = geninfo
@@ -909,15 +1009,16 @@ def run_tracelog(chk, quick, tmp, rnd):
 
     # 3. code -> spec: the same runs (raw logs) ...
     idx = [i for i, h in enumerate(hs) if i in res and "obs" in res[i] and len(res[i]["obs"]) == len(h)]
-    if len(idx) > (5000 if quick else 12000):
-        idx = sorted(random.Random(chk.seed).sample(idx, 5000 if quick else 12000))
+    if len(idx) > (3500 if quick else 12000):
+        idx = sorted(random.Random(chk.seed).sample(idx, 3500 if quick else 12000))
     execs = [lines_of_short(hs[i], res[i]["obs"]) for i in idx]
     validate_executions(chk, execs, "c20-short", [{"history": hs[i]} for i in idx])
     # ... and long concurrent logs across the storage-chunk boundary
     cfgs = long_configs(quick, rnd)
-    execs, sources, nev = record_long(chk, exe, cfgs, "c20-long", meta, 4)
+    execs, sources, nev, first = record_long(chk, exe, cfgs, "c20-long", meta, 4)
     chk.require_actions(["RunThreads", "RunSequential"])
-    sizes = sorted({p["n"] for c in cfgs for st in c[1] if st["a"] == "RunThreads" for p in st["arg"]["progs"]})
+    sizes = sorted({p["n"] for c in cfgs if not c[0].startswith(("full-chunk", "chunk-1-save", "save-grow")) for st in c[1] if st["a"] == "RunThreads"
+                    for p in st["arg"]["progs"]})
     for must in (CHUNK - 1, CHUNK, CHUNK + 1, 3 * CHUNK, 0, 1):
         if must not in sizes:
             raise tla.InfraError("vacuity guard: no thread recorded exactly %d events" % must)
@@ -933,14 +1034,14 @@ def run_tracelog(chk, quick, tmp, rnd):
     chk.log("thread lifetimes: %d executions with recording threads that follow one another, %d in which a std::thread::id was recycled, "
             "%d in which threads share a tid in the log" % (lt["executions_with_sequential_recording_threads"],
                                                              lt["executions_with_recycled_thread_id"], lt["executions_with_shared_tid"]))
-    ctl = next(i for i, c in enumerate(cfgs) if c[0] == "control")
+    ctl = first["control"]
     if rejected and (ctl in rejected or ctl > max(rejected)):
         chk.note("corrupted-trace control skipped: the control execution itself was rejected or not reached")
     else:
         corrupted_trace_control(chk, execs[ctl], "c20-control")
     chk.cov["distinct_nontrivial"] += sum(1 for e in execs if any(ln["e"] == "Rec" for ln in e))
-    big = next(i for i, c in enumerate(cfgs) if c[0] == "chunk+1")
-    chk.add_sample({"kind": "recorded-execution", "actions": cfgs[big][1], "first_lines": execs[big][:3] + execs[big][CHUNK + 1:CHUNK + 4],
+    big = first["chunk+1"]
+    chk.add_sample({"kind": "recorded-execution", "actions": sources[big]["actions"], "first_lines": execs[big][:3] + execs[big][CHUNK + 1:CHUNK + 4],
                     "lines": len(execs[big])}, maxn=8)
 
     th.join()
@@ -980,16 +1081,22 @@ def run(chk, replay=None):
         "entries only the kind is constrained",
         "sessions: inside one recorder a name pointer always carries one text (the documented precondition of the recorder's pointer-keyed "
         "string cache); across recorders the same pointer may carry different texts; a dangling name is observed through AddressSanitizer",
-        "names are plain ASCII without characters needing JSON escaping; counter values < 2^31; one stable pointer per distinct name text",
+        "a counter value is compared as the exact decimal numeral of the number the JSON token denotes (1e3 = 1000.0 = 1000); names that "
+        "need care are symbols in the specification ('@quote', '@len256', ...) which the driver maps injectively to the texts and back; "
+        "one stable pointer per distinct name text",
     ]
     if replay:
         return do_replay(chk, replay)
     tmp = make_tmp("run")
     try:
         pending = start_sessions_graph(chk, quick)
-        run_images(chk, quick, tmp)
+        big = {}
+        bpending = (gen_big_cases(quick, big, parts=("wide", "tall", "mid", "sweep", "huge")), big)
+        cases = run_images(chk, quick, tmp)
         run_tracelog(chk, quick, tmp, rnd)
         run_sessions(chk, quick, tmp, rnd, pending)
+        run_large_images(chk, quick, tmp, bpending, cases)
+        run_huge_images(chk, quick, tmp, bpending)
     finally:
         shutil.rmtree(tmp, ignore_errors=True)
     chk.cov["rule"] = ("image cases: TLC enumerates writer x size x buffer kind after checking the index-map laws; a case is non-trivial when the "
@@ -1032,15 +1139,15 @@ def do_replay(chk, path):
                 res, rc, stderr, wall = run_parallel(exe, [acts], "replay", 1, meta, timeout_ms=900000)
                 if 0 not in res:
                     raise tla.InfraError("no result on replay: %s" % stderr[-1500:])
-                lines = lines_of_long(acts, res[0])
+                parts = lines_of_long(acts, res[0])
             else:
                 h = src["history"]
                 res, rc, stderr, wall = run_parallel(exe, [h], "replay", 1, meta)
                 if 0 not in res:
                     raise tla.InfraError("no result on replay: %s" % stderr[-1500:])
                 r = res[0]
-                lines = lines_of_short(h, r["obs"]) if "obs" in r and len(r["obs"]) == len(h) else lines_of_long(h, r)
-            validate_executions(chk, [lines], "replay", [src])
+                parts = [lines_of_short(h, r["obs"])] if "obs" in r and len(r["obs"]) == len(h) else lines_of_long(h, r)
+            validate_executions(chk, parts, "replay", [src] * len(parts))
     finally:
         shutil.rmtree(tmp, ignore_errors=True)
     chk.cov["evaluations"] = max(chk.cov["evaluations"], 1)
